@@ -203,9 +203,9 @@ func vhloopEnc(tg uint16, m message) []byte {
 type vhloopReply struct {
 	Typ      int  `json:"typ"`
 	Tag      int  `json:"tag"`
-	Valid    bool `json:"valid"`    // size and body are what this reply type must look like
-	InsideBk bool `json:"inside"`   // Rflush only: the flushed request was inside its backend call when the Rflush was read
-	Target   int  `json:"target"`   // Rflush only: gate of the flushed request (-1 none)
+	Valid    bool `json:"valid"`  // size and body are what this reply type must look like
+	InsideBk bool `json:"inside"` // Rflush only: the flushed request was inside its backend call when the Rflush was read
+	Target   int  `json:"target"` // Rflush only: gate of the flushed request (-1 none)
 	eof      bool
 }
 
